@@ -41,7 +41,21 @@ INVALID = [
     ("plain-text-even", lambda r: "just a regular strin"),
     ("nul-char", lambda r: "00\x0000"),
     ("underscore", lambda r: "fe_f0a"),
+    # the same faults at the other parity (an odd-length pre-check must not be the only guard)
+    ("two-spaces-inside", lambda r: "fe  f0"),
+    ("spaces-around", lambda r: " fef0 "),
+    ("trailing-crlf", lambda r: "fef0a5" * r.randrange(1, 20) + "\r\n"),
+    ("only-whitespace", lambda r: "  "),
+    ("tabs-between-bytes", lambda r: "fe\tf0\t"),
+    ("grouped-with-spaces-even", lambda r: " ".join(["fef0"] * 3) ),
+    ("non-hex-pair", lambda r: "00" * r.randrange(0, 30) + "g0" + "00" * r.randrange(0, 30)),
+    ("unicode-hex-lookalike-pair", lambda r: "ａｂ"),
+    ("plus-sign", lambda r: "+1"),
+    ("0x-prefix-even", lambda r: "0xfe"),
 ]
+# not strings at all: whatever they do, the next valid call must be right
+NON_STR = [("bytes", lambda r: b"fef0"), ("bytearray", lambda r: bytearray(b"fef0a5")), ("memoryview", lambda r: memoryview(b"00")),
+           ("none", lambda r: None), ("int", lambda r: 0xFEF0), ("list", lambda r: ["fe", "f0"])]
 
 
 def _post(rec):
@@ -69,8 +83,8 @@ class C04(Prop):
     level = "exploration"
     technique = "runtime contract (icontract postcondition vs bitwise reference CRC) on exhaustive short strings, bit-flipped frames and random strings"
     rule = ("inputs: all byte strings of length 0..2 (exhaustive, disjoint over shards), every single-bit flip "
-            "of 14 reference frames, random strings of 3..4096 bytes in lower/upper/mixed hex spelling, 15 invalid "
-            "classes; distinct = distinct input byte string x spelling; non-trivial = every input (each is judged "
+            "of 14 reference frames, random strings of 3..4096 bytes in lower/upper/mixed hex spelling (every input re-signed in the other spellings right after), 25 invalid "
+            "classes at both length parities and 6 non-string inputs, each followed by a judged valid call; distinct = distinct input byte string x spelling; non-trivial = every input (each is judged "
             "against the independent CRC)")
     assumptions = ["vf/ref/crc.py bitwise CRC-16/CCITT is the protocol's CRC (pinned by the 8 signed literals of the repo's tests)"]
     level_text = ("Every call of the real signer in the run is judged by a postcondition against an independent bitwise CRC: "
@@ -177,18 +191,23 @@ class C04(Prop):
         elif kind == "invalid":
             r = env.rng("C04", "invalid", case["seed"])
             for rep in range(20):
-                for name, gen in INVALID:
+                for name, gen in INVALID + NON_STR:
                     s = gen(r)
                     acc.ev()
-                    acc.sig(env.sig("invalid", name, s))
+                    acc.sig(env.sig("invalid", name, repr(s)[:120]))
+                    rejected = False
                     try:
                         out = self.tools.sign_packet_with_crc_key(s)
                     except Exception:
                         acc.count("invalid_rejected")
-                        self.rec.drain()
-                        continue
+                        rejected = True
                     self.rec.drain()
-                    acc.violation("invalid-hex-accepted", f"input class {name} produced output", {"input": s[:80], "output": str(out)[:80]})
+                    if not rejected and isinstance(s, str):
+                        acc.violation("invalid-hex-accepted", f"input class {name} produced output", {"input": s[:80], "output": str(out)[:80]})
+                    # a refused call must leave nothing behind: the very next valid call is judged as usual
+                    probe = r.randbytes(r.randrange(1, 90)).hex()
+                    self._call(acc, probe, f"first valid call after a refused {name} input")
+                    acc.count("valid_calls_right_after_refused_input")
             acc.sample({"kind": "invalid", "classes": [n for n, _ in INVALID]})
 
     def finish(self, acc, ctx):
